@@ -51,3 +51,6 @@ impl Bytes {
     #[verifier::external_body] pub fn as_slice(&self) -> (r: &[u8]) ensures r@ == self@ { unimplemented!() }
     #[verifier::external_body] pub fn copy_from_slice(s: &[u8]) -> (r: Bytes) ensures r@ == s@ { unimplemented!() }
 }
+
+// uN::to_le_bytes / from_be_bytes have const-generic array signatures that assume_specification cannot name (R5)
+#[verifier::external_body] pub fn u64_to_le_bytes(x: u64) -> (r: [u8; 8]) ensures r@ == le64(x) { x.to_le_bytes() }
